@@ -299,4 +299,77 @@ def defaultsCase (which fn sr N : Nat) : Case := do
 def defaultsValid (which fn sr : Nat) : Prop := which = 0 → sr = fn
 instance (a b c : Nat) : Decidable (defaultsValid a b c) := by unfold defaultsValid; infer_instance
 
+/-! ### `getLikelihood()` queried after the (time-varying) measurement model changed its size
+
+`SUKFCorrection::getLikelihood()` answers from `innovations_` / `propagated_sigma_points_` of the last successful
+correction, but reads the noise covariance of the measurement model AT QUERY TIME (`getNoiseCovarianceMatrix(i)` for
+`i < innovations_.rows() / sub`).  `UKFCorrection` / `KFCorrection` answer from their own members only. -/
+
+/-- linear measurement of `m` rows on a state with layout `I`; noise covariance `m × m` (full) or `sub × sub` (reduced) -/
+def likqMeas (I : Layout) (m sub : Nat) (reduced : Bool) : MMod :=
+  let rr := if reduced then sub else m
+  ⟨⟨I.dl, I.dc, I.quat, rr⟩, ⟨m, 0, false, 0⟩, m, 0, m, m, rr, true, true, true⟩
+
+/-- what happens between the model's change of size and the query -/
+inductive LikQHow where
+  | queryOnly          -- getLikelihood() at once
+  | skippedCorrect     -- skip(true); correct(): GaussianCorrection::correct copies the belief, the members stay
+  | correct            -- correct() (not skipped): the members are renewed
+deriving DecidableEq, Repr
+
+def LikQHow.ofNat? : Nat → Option LikQHow
+  | 0 => some .queryOnly | 1 => some .skippedCorrect | 2 => some .correct | _ => none
+
+def likqState : Layout := ⟨3, 0, false, 0⟩
+
+/-- SUKFCorrection: successful correction with `m1` rows, query, the model switches to `m2` rows, `how`, query -/
+def sukfLikQuery (K sub m1 m2 : Nat) (reduced : Bool) (how : LikQHow) : W (List String) := do
+  let I := likqState
+  let M1 := likqMeas I m1 sub reduced
+  let M2 := likqMeas I m2 sub reduced
+  let (mem, _, _) ← sukfStep SUKFMem.init I K I K M1 sub reduced
+  let (v1, n1) ← sukfLikelihood mem.inn mem.prop M1.rr sub reduced
+  let mem' ← (match how with
+    | .correct => do let (m', _, _) ← sukfStep mem I K I K M2 sub reduced; pure m'
+    | _ => pure mem)
+  let (v2, n2) ← sukfLikelihood mem'.inn mem'.prop M2.rr sub reduced       -- the CURRENT noise covariance
+  pure [s!"{b01 v1}:{n1}", s!"{b01 v2}:{n2}"]
+
+/-- UKFCorrection (both constructors): the query reads members only -/
+def ukfLikQuery (additive : Bool) (K m1 m2 : Nat) (how : LikQHow) : W (List String) := do
+  let I := likqState
+  let (mem, _, _) ← ukfStep additive UKFMem.init I K I K (likqMeas I m1 0 false)
+  let (v1, n1) ← ukfLik mem
+  let mem' ← (match how with
+    | .correct => do let (m', _, _) ← ukfStep additive mem I K I K (likqMeas I m2 0 false); pure m'
+    | _ => pure mem)
+  let (v2, n2) ← ukfLik mem'
+  pure [s!"{b01 v1}:{n1}", s!"{b01 v2}:{n2}"]
+
+/-- KFCorrection over a linear model `H : m × 3`: members `innovations_`, `meas_covariances_` only -/
+def kfLikQuery (K m1 m2 : Nat) (how : LikQHow) : W (List String) := do
+  let I := likqState
+  let _ ← kfCorrect I K I K m1 I.dim m1 true
+  let (v1, n1) ← gaussLikelihood "KFCorrection" ⟨m1, K⟩ ⟨m1, 0, false, 0⟩ K
+  let m := (match how with | .correct => m2 | _ => m1)
+  let _ ← (match how with
+    | .correct => do let _ ← kfCorrect I K I K m2 I.dim m2 true; pure ()
+    | _ => pure ())
+  let (v2, n2) ← gaussLikelihood "KFCorrection" ⟨m, K⟩ ⟨m, 0, false, 0⟩ K
+  pure [s!"{b01 v1}:{n1}", s!"{b01 v2}:{n2}"]
+
+def likqCase (kind : Nat) (reduced : Bool) (sub m1 m2 : Nat) (how : LikQHow) (K : Nat) : Case := do
+  let t ← (match kind with
+    | 2 => sukfLikQuery K sub m1 m2 reduced how
+    | 3 => kfLikQuery K m1 m2 how
+    | k => ukfLikQuery (k == 1) K m1 m2 how)
+  pure (some t)
+/-- a time-varying measurement model (sizes `m1`, then `m2`, sub-size dividing both) and skipping a correction are legitimate uses -/
+def likqValid (kind sub m1 m2 K : Nat) : Prop :=
+  1 ≤ K ∧ 1 ≤ m1 ∧ 1 ≤ m2 ∧ (kind = 2 → 1 ≤ sub ∧ m1 % sub = 0 ∧ m2 % sub = 0)
+instance (a b c d e : Nat) : Decidable (likqValid a b c d e) := by unfold likqValid; infer_instance
+/-- the part on which the SUKF query is safe: the current noise covariance still covers the stored innovations -/
+def likqCovered (reduced : Bool) (m1 m2 : Nat) (how : LikQHow) : Prop := reduced = true ∨ how = .correct ∨ m1 ≤ m2
+instance (r : Bool) (a b : Nat) (h : LikQHow) : Decidable (likqCovered r a b h) := by unfold likqCovered; infer_instance
+
 end BFL.Bounds
